@@ -22,6 +22,14 @@ import duckdb
 
 _real_connect = duckdb.connect
 _WS = re.compile(r"\s+")
+PATH_SUBST = []  # (real prefix, stable token): sandbox roots contain the pid, logs must not
+
+
+def stable(text):
+    for a, b in PATH_SUBST:
+        if a in text:
+            text = text.replace(a, b)
+    return text
 
 
 class InjectedFault(Exception):
@@ -86,6 +94,7 @@ class Sim:
         self.sql_log = []         # full SQL of CTAS statements (for reference executions)
         self.thread_names = False
         self.hold = []            # strong refs a check may add on purpose (never by seams)
+        self.initial_threads_from_knob = os.environ.get("VERIF_DUCKDB_DEFAULT_POOL") != "1"
 
     # ---- operations
     def begin_op(self, index):
@@ -97,7 +106,7 @@ class Sim:
         self.seq += 1
         self.k += 1
         th = threading.current_thread().name if self.thread_names else ""
-        d = _WS.sub(" ", str(detail))[:160]
+        d = _WS.sub(" ", stable(str(detail)))[:160]
         self.events.append((self.seq, th, self.op, self.k, kind, d))
         f = self.faults.get((self.op, self.k))
         if f is not None:
@@ -148,7 +157,7 @@ _analysis_pid = None
 def _analysis():
     global _analysis_conn, _analysis_pid
     if _analysis_conn is None or _analysis_pid != os.getpid():
-        _analysis_conn = _real_connect(":memory:")
+        _analysis_conn = _real_connect(":memory:", config={"threads": 1})
         _analysis_pid = os.getpid()
     return _analysis_conn
 
@@ -399,6 +408,18 @@ class SimConnection:
 def sim_connect(database=":memory:", *a, **k):
     role = "run" if "config" in k else "aux"
     tok = SIM.step("connect", database)
+    if SIM.initial_threads_from_knob:
+        # DuckDB starts one worker thread per core at connect and the engine shrinks the pool
+        # right afterwards (SET threads = VTL_THREADS).  In this VM thread creation is the
+        # throughput bottleneck, so the pool is *started* at the size the engine is about to set.
+        try:
+            n = int(os.environ.get("VTL_THREADS", "1"))
+        except ValueError:
+            n = 0
+        if n >= 1:
+            cfg = dict(k.get("config") or {})
+            cfg.setdefault("threads", n)
+            k = dict(k, config=cfg)
     real = _real_connect(database, *a, **k)
     SIM.conn_count += 1
     c = SimConnection(real, database, role)
